@@ -1,9 +1,87 @@
-import TLVerif.Packet.BasicLemmas
+import TLVerif.Packet.ConnLemmas
 /-!
 # C35 — Packet stream framing round-trips and detects corruption
+
+Property theorems only (helper lemmas live in `TLVerif/Packet/*Lemmas.lean`).  All statements are about the model
+of `pkg/rpc/packetconn.go` + `crypto.go` in `TLVerif/Packet/{Basic,Reader,Script}.lean`, over the constants
+extracted from the repository on this run (`Generated/PacketFacts.lean`), for an arbitrary environment `e : Env`
+(two CRC functions, a keyed block map); what is needed from the environment is an explicit hypothesis.
+
+Vocabulary: a *history* is a list of `Step`s (mode changes made by both ends just before a packet, the packet,
+how it is flushed); `flat` turns it into the flat script the driver and the harness execute; `finalW` runs the
+writer model on it and flushes; `WState.wire` are the bytes on the connection; `readLoop (chunkSrc e)` is the
+reading loop over the model of `cryptoReader` fed with an arbitrary list of chunks; `schedOfOps` tells the reading
+end when to make the mode changes (after as many packets as the writer had written).
 -/
 namespace TLVerif.Props.C35
 open TLVerif.Packet TLVerif.Facts.Packet
+
+/-- **frames_roundtrip (unencrypted).** For every history without encryption switch that the reading side can
+accept (`StepsOK`: sizes, handshake packet types for the first two packets, no pong), from every injected start
+state, the writer model succeeds, and for EVERY segmentation `cs` of the wire bytes the reading loop returns exactly
+the written packets (types and bodies, in order; valid pings as pings) followed by a clean EOF. -/
+theorem frames_roundtrip_plain (e : Env) (n0 : Nat) (m0 : Mode) (hm0 : m0.enc = false) (ss : List Step)
+    (hok : StepsOK e (freshW n0 m0) ss) (hne : NoEncSteps ss) (f : Nat) :
+    ∃ wf, finalW e (flat ss) (freshW n0 m0) = some wf ∧
+      ∀ cs : List Bytes, cs.flatten = wf.wire e →
+        readLoop (chunkSrc e) e (schedOfOps e (flat ss) (freshW n0 m0)) (ss.length + (f + 1)) ⟨n0, m0⟩ { chunks := cs } =
+          (ss.map stepEv, some .eof) :=
+  roundtrip_plain_chunks e n0 m0 hm0 ss hok hne f
+
+/-- **frames_roundtrip (with the encrypted handshake).** `pre` is exchanged in the clear; just before the packet
+of `es` both ends turn AES-CBC on (key, IV); `post` follows. Under the block-cipher law (`dec k (enc k b) = b` on
+blocks) the wire is the clear prefix followed by the CBC encryption of the padded rest, and for EVERY segmentation
+of it the reading loop (which decrypts whole blocks as they arrive) returns exactly the written packets. -/
+theorem frames_roundtrip_encrypted (e : Env) (he : e.CipherOK) (n0 : Nat) (m0 : Mode) (hm0 : m0.enc = false)
+    (pre : List Step) (es : EncStep) (post : List Step)
+    (hok : StepsOK e (freshW n0 m0) (pre ++ es.step :: post))
+    (hpre : NoEncSteps pre) (h1 : NoEnc es.ms1) (h2 : NoEnc es.ms2) (hpost : NoEncSteps post) (f : Nat) :
+    ∃ wf, finalW e (flat (pre ++ es.step :: post)) (freshW n0 m0) = some wf ∧
+      wf.wire e = stepsBytes e (freshW n0 m0) pre ++ cbcEnc e es.key es.iv (encTail e (freshW n0 m0) pre es post) ∧
+      ∀ cs : List Bytes, cs.flatten = wf.wire e →
+        readLoop (chunkSrc e) e (schedOfOps e (flat (pre ++ es.step :: post)) (freshW n0 m0))
+            (pre.length + ((post.length + (f + 1)) + 1)) ⟨n0, m0⟩ { chunks := cs } =
+          ((pre ++ es.step :: post).map stepEv, some .eof) :=
+  roundtrip_enc_chunks e he n0 m0 hm0 pre es post hok hpre h1 h2 hpost f
+
+/-- **chunk_invariant.** For ANY byte stream (well-formed or not), any schedule of mode changes and any reader
+state, the result of the reading loop is a function of the concatenation of the chunks. The side condition
+concerns only a reader that has read nothing yet: the stream it is about to parse must not start with one of the
+four memcached commands (which `readFullOrMagic` recognises per `Read`; see `chunk_dependence_magic`). -/
+theorem chunk_invariant (e : Env) (sched : Nat → List ModeOp) (fuel : Nat) (st : RState) (cs₁ cs₂ : List Bytes)
+    (hcs : cs₁.flatten = cs₂.flatten)
+    (hQ : st.n = 0 → ∀ r, applyModeOps (pureSrc e) st cs₁.flatten (sched st.n) = some r → NoMagic r.2) :
+    readLoop (chunkSrc e) e sched fuel st { chunks := cs₁ } = readLoop (chunkSrc e) e sched fuel st { chunks := cs₂ } :=
+  Packet.chunk_invariant e sched fuel st cs₁ cs₂ hcs hQ
+
+/-- The chunked, decrypt-as-it-arrives reader refines the reader over the whole remaining decrypted stream. -/
+theorem reader_refines_stream (e : Env) (sched : Nat → List ModeOp) (fuel : Nat) (st : RState) (cs : List Bytes)
+    (hQ : st.n = 0 → ∀ r, applyModeOps (pureSrc e) st cs.flatten (sched st.n) = some r → NoMagic r.2) :
+    readLoop (chunkSrc e) e sched fuel st { chunks := cs } = readLoop (pureSrc e) e sched fuel st cs.flatten :=
+  readLoop_chunk_eq_pure e sched fuel st _ _ (CRelB_init e cs _) hQ
+
+/-- The memcached special case really is chunk dependent (outside the property: such a stream is never
+produced by a packet writer, whose third byte is always 0). -/
+theorem chunk_dependence_magic (e : Env) :
+    readLoop (chunkSrc e) e (fun _ => []) 1 {} { chunks := [[115, 116, 97, 116, 115, 10], [0, 0, 0, 0, 0, 0]] } ≠
+    readLoop (chunkSrc e) e (fun _ => []) 1 {} { chunks := [[115, 116, 97, 116, 115, 10, 0, 0, 0, 0, 0, 0]] } := by
+  have h1 : readLoop (chunkSrc e) e (fun _ => []) 1 {} { chunks := [[115, 116, 97, 116, 115, 10], [0, 0, 0, 0, 0, 0]] } =
+      ([], some .eof) := by rfl
+  have h2 : readLoop (chunkSrc e) e (fun _ => []) 1 {} { chunks := [[115, 116, 97, 116, 115, 10, 0, 0, 0, 0, 0, 0]] } =
+      ([], some .size) := by rfl
+  rw [h1, h2]
+  decide
+
+/-- CBC over the abstract block map: whole-block plaintext survives encryption and decryption. -/
+theorem cbc_roundtrip (e : Env) (he : e.CipherOK) (k iv p : Bytes) (hiv : iv.length = blockSize)
+    (hp : p.length % blockSize = 0) : cbcDec e k iv (cbcEnc e k iv p) = p :=
+  cbcDec_cbcEnc e k he iv p hiv hp
+
+/-- The writer never leaves the model on an admissible history (in particular `FlushUnlocked` never needs more
+than the 12 constant padding bytes), and the logical plaintext stream grows by exactly the frames and paddings. -/
+theorem writer_total (e : Env) (w : WState) (ss : List Step) (hok : StepsOK e w ss) (hi : EInv w) :
+    runW e (flat ss) w = some (wSteps e w ss) ∧ (wSteps e w ss).L = w.L ++ stepsBytes e w ss :=
+  ⟨(runW_steps e w ss hok hi).1, (runW_steps e w ss hok hi).2.1⟩
 
 /-- 32-bit words survive serialisation. -/
 theorem word_roundtrip (n : Nat) (rest : Bytes) : word (le32 n ++ rest) = n % 4294967296 :=
